@@ -891,3 +891,265 @@ def r_effective_len(ctx, db, est, scen):
                        "%s (%s) preserves (sum w)^2 - sum(w^2) >= 0 for weights >= 0: %s" % (kind, label, sp.expand(e2) if ok2 else "not of a visibly non-negative form: %s" % sp.simplify(e2)),
                        d7=True)
     return n_ob
+
+
+# ---------------------------------------------------------------------------------------------
+# R-MAG (second part): magnitude grading over the property's value box
+#
+# Every residual is graded by (dx, dn): it scales like s^dx * n^dn when all observations scale like s
+# and the count like n.  dx is the solved physical dimension (R-DIM); dn comes from the counts in the
+# expression and from the count-degree of the state fields, which the accessors fix (an intensive
+# statistic such as central_moment(p) = m[p-2]/n makes m[p-2] extensive).  At the corners of the value
+# box the property quantifies over, every product/quotient that contributes *significantly* (within
+# 1e-14) to a new field value must be a representable f64: a factor that underflows to 0 or overflows
+# although the field it feeds is representable loses the update for legal inputs.  Additions are graded
+# by their largest term (no cancellation assumed: a necessary condition, not an error bound).
+
+# a term below 1e-14 of the value it is added to is inside every envelope of DESIGN 'Error envelopes'
+# even when it is lost at each of the n updates (n lost terms <= C*n*2^-53 of the scale with C ~ 100)
+SIGNIFICANT = 14
+
+N_CONTRACT = {"variance_of_mean": Fraction(-1), "variance_of_weighted_mean": Fraction(-1), "error": Fraction(-1, 2),
+              "error_mean": Fraction(-1, 2), "standardized_moment(0)": Fraction(1), "sum_weights": Fraction(1),
+              "sum_weights_sq": Fraction(1), "effective_len": Fraction(1)}
+
+
+class _NDeg:
+    """count-degree of residuals as affine forms over per-field unknowns (one axis 'N')"""
+
+    def __init__(self):
+        self.sol = DimSolver(("N",))
+        self.memo = {}
+        self.params = set()   # observation / weight parameters: independent of the count
+
+    def deg(self, n):
+        key = id(n)
+        r = self.memo.get(key)
+        if r is None or r[0] is not n:
+            r = (n, self._deg(n))
+            self.memo[key] = r
+        return r[1]
+
+    def _deg(self, n):
+        s = self.sol
+        k = n[0]
+        if k == "lit":
+            return POLY
+        if k == "i2f":
+            lin = Lin.from_key(n[1])
+            return s.unit("N") if lin.terms else POLY
+        if k == "atom":
+            if n[1] in self.params:
+                return s.zero()
+            return s.unknown(field_of(n[1]))
+        if k == "neg":
+            return self.deg(n[1])
+        if k in ("add", "sub"):
+            a, b = self.deg(n[1]), self.deg(n[2])
+            if a is POLY:
+                return b
+            if b is POLY:
+                return a
+            if a is None or b is None:
+                return None
+            ra, rb = s._resolve(a, 0), s._resolve(b, 0)
+            if ra == rb:
+                return a
+            if not ra[1] and not rb[1]:
+                return a if ra[0] >= rb[0] else b
+            return None
+        if k in ("mul", "div"):
+            a, b = self.deg(n[1]), self.deg(n[2])
+            if a is None or b is None:
+                return None
+            if a is POLY:
+                a = s.zero()
+            if b is POLY:
+                b = s.zero()
+            return a.add(b, 1 if k == "mul" else -1)
+        if k == "fn":
+            name = n[1]
+            if name == "sqrt":
+                a = self.deg(n[2])
+                return a if a is None or a is POLY else a.scale(Fraction(1, 2))
+            if name == "abs":
+                return self.deg(n[2])
+            if name == "powi" and isinstance(n[3], int):
+                a = self.deg(n[2])
+                return a if a is None or a is POLY else a.scale(n[3])
+            if name == "powf" and F.is_lit(n[3]):
+                a = self.deg(n[2])
+                return a if a is None or a is POLY else a.scale(Fraction(F.litval(n[3])).limit_denominator(64))
+        return None
+
+    def value(self, n):
+        """solved count-degree (Fraction) or None when it depends on an unsolved field"""
+        d = self.deg(n)
+        if d is None:
+            return None
+        if d is POLY:
+            return Fraction(0)
+        c, t = self.sol._resolve(d, 0)
+        return None if t else c
+
+
+def r_mag_box(ctx, db, est, scen, box):
+    """box = dict(smin, smax, nmax, order): observations scale within [smin, smax], counts up to nmax,
+    and n * smax^order is representable (the property's no-overflow restriction)"""
+    import math
+    sol = scen.get("dim_solver")
+    if sol is None:
+        return 0
+    ax = sol.axes.index("X")
+    nd = _NDeg()
+    # 1. accessors fix the count-degree of the fields
+    for name, (p, paths) in sorted(scen["acc"].items()):
+        want = N_CONTRACT.get(name, N_CONTRACT.get(name.split("(")[0], Fraction(0)))
+        for pth in paths:
+            if pth.status != "return" or not is_float(pth.ret[0]):
+                continue
+            d = nd.deg(pth.ret[0])
+            if d is None or d is POLY:
+                continue
+            try:
+                nd.sol.equate(d, nd.sol.unit("N", want), "count-degree of %s" % name)
+            except Clash:
+                pass
+    order = box.get("order") or 1
+    corners = []
+    for n_ in (2.0, float(box["nmax"])):
+        smax = min(box["smax"], (1e300 / n_) ** (1.0 / order))
+        for s_ in (box["smin"], smax):
+            corners.append((math.log10(s_), math.log10(n_), "scale %.0e, n = %.0e" % (s_, n_)))
+    LO, HI = math.log10(2.3e-308), math.log10(1.7e308)
+    n_ob = 0
+
+    def xdeg(x):
+        try:
+            d = sol.dim(x)
+        except Clash:
+            return None
+        if d is POLY:
+            return Fraction(0)
+        dx = Fraction(0)
+        for a in range(len(sol.axes)):
+            c, t = sol._resolve(d, a)
+            if t:
+                return None
+            if sol.axes[a] != "W":
+                dx += c
+        return dx
+
+    def mag(x, corner, memo):
+        """log10 magnitude of node x at a corner; None = unknown, -inf = exact zero"""
+        key = id(x)
+        if key in memo:
+            return memo[key]
+        k = x[0]
+        r = None
+        if k == "lit":
+            v = abs(F.litval(x))
+            r = -math.inf if v == 0 else (None if v != v or v == math.inf else math.log10(v))
+        elif k == "i2f":
+            lin = Lin.from_key(x[1])
+            r = corner[1] if lin.terms else (math.log10(abs(lin.c)) if lin.c else -math.inf)
+        elif k == "atom":
+            dx, dn = xdeg(x), nd.value(x)
+            r = None if dx is None or dn is None else float(dx) * corner[0] + float(dn) * corner[1]
+        elif k in ("neg",):
+            r = mag(x[1], corner, memo)
+        elif k == "fn" and x[1] == "abs":
+            r = mag(x[2], corner, memo)
+        elif k in ("add", "sub"):
+            a, b = mag(x[1], corner, memo), mag(x[2], corner, memo)
+            r = None if a is None or b is None else max(a, b)
+        elif k in ("mul", "div"):
+            a, b = mag(x[1], corner, memo), mag(x[2], corner, memo)
+            if a is None or b is None:
+                r = None
+            elif k == "mul":
+                r = -math.inf if -math.inf in (a, b) else a + b
+            else:
+                r = None if b == -math.inf else (-math.inf if a == -math.inf else a - b)
+        elif k == "fn" and x[1] == "sqrt":
+            a = mag(x[2], corner, memo)
+            r = None if a is None else a / 2
+        elif k == "fn" and x[1] == "powi" and isinstance(x[3], int):
+            a = mag(x[2], corner, memo)
+            r = None if a is None else (a * x[3] if a != -math.inf else (-math.inf if x[3] > 0 else None))
+        memo[key] = r
+        return r
+
+    def walk(x, corner, memo, seen, bad):
+        """visit the significant part of x; record unrepresentable products"""
+        if id(x) in seen:
+            return
+        seen.add(id(x))
+        k = x[0]
+        if k in ("add", "sub"):
+            m_ = mag(x, corner, memo)
+            for c in x[1:]:
+                mc = mag(c, corner, memo)
+                if m_ is None or mc is None or mc >= m_ - SIGNIFICANT:
+                    walk(c, corner, memo, seen, bad)
+        elif k in ("mul", "div"):
+            m_ = mag(x, corner, memo)
+            if m_ is not None and m_ != -math.inf and (m_ < LO or m_ > HI):
+                bad.append((m_, x))
+            walk(x[1], corner, memo, seen, bad)
+            walk(x[2], corner, memo, seen, bad)
+        elif k == "neg":
+            walk(x[1], corner, memo, seen, bad)
+        elif k == "fn":
+            if x[1] == "powi":
+                m_ = mag(x, corner, memo)
+                if m_ is not None and m_ != -math.inf and (m_ < LO or m_ > HI):
+                    bad.append((m_, x))
+            for c in x[2:]:
+                if isinstance(c, tuple) and c and c[0] in F_TAGS:
+                    walk(c, corner, memo, seen, bad)
+
+    def check(where, fn, v, field_mag_known):
+        nonlocal n_ob
+        worst = None
+        for corner in corners:
+            memo = {}
+            top = mag(v, corner, memo)
+            if top is None or top == -math.inf or top < LO or top > HI:
+                continue   # the field value itself is outside the representable range at this corner: not this rule's business
+            bad = []
+            walk(v, corner, memo, set(), bad)
+            for m_, x in bad:
+                sev = (LO - m_) if m_ < LO else (m_ - HI)
+                if worst is None or sev > worst[0]:
+                    worst = (sev, m_, x, corner, top)
+        n_ob += 1
+        if worst is None:
+            ctx.ob("R-MAG", "%s:representable" % where, fn, R.fn_site(db, fn), True,
+                   "%s: every significant product is a representable f64 at the %d corners of the value box" % (where, len(corners)))
+        else:
+            sev, m_, x, corner, top = worst
+            ctx.ob("R-MAG", "%s:representable" % where, fn, R.fn_site(db, fn), False,
+                   "%s: at %s the new value is about 1e%.0f (representable) but its factor %s is about 1e%.0f — it %s, so the update is lost for legal data" % (
+                       where, corner[2], top, F.show(x)[:150], m_, "underflows" if m_ < LO else "overflows"),
+                   sample={"factor": F.show(x)[:240], "log10_factor": round(m_, 1), "log10_value": round(top, 1), "corner": corner[2]})
+
+    for kind in ("add", "merge"):
+        for label, paths in scen[kind]:
+            fn = est.add if kind == "add" else est.merge
+            for pth in paths:
+                if pth.status != "return":
+                    continue
+                if kind == "add":
+                    for xv in pth.ret[2]:
+                        if is_float(xv) and xv[0] == "atom" and xv[1] not in nd.params:
+                            nd.params.add(xv[1])
+                            nd.memo.clear()
+                for leaf, v in sorted(pth.ret[1].items()):
+                    if is_float(v) and v != pth.ret[0].get(leaf):
+                        check("%s:%s" % (kind, leaf), fn, v, True)
+    for name, (p, paths) in sorted(scen["acc"].items()):
+        for pth in paths:
+            if pth.status == "return" and is_float(pth.ret[0]):
+                check(name, p, pth.ret[0], True)
+    return n_ob
